@@ -46,6 +46,13 @@ VT_KEYSTR = z3.Function("valid_types_keys_joined", Val, S_)
 CMD_HAS = z3.Function("commands_has", Val, S_, B_)
 CMD_GET = z3.Function("commands_get", Val, S_, I_)
 _FLD = {}
+_HASATTR = {}
+
+
+def HASATTR(name):
+    if name not in _HASATTR:
+        _HASATTR[name] = z3.Function("has_attr_" + name, I_, B_)
+    return _HASATTR[name]
 
 MUTATORS = {"append", "extend", "insert", "remove", "pop", "clear", "sort", "reverse", "update", "setdefault", "popitem"}
 
@@ -321,6 +328,10 @@ class DynMixin(object):
             d = self.to_dyn(st, default[0])
             # class attribute that a Command subclass may or may not define
             yield st, dyn(z3.If(z3.And(Val.is_O(t), HAS_FUZZY(Val.ref(t))), FLD("is_fuzzy")(Val.ref(t)), d))
+            return
+        if default:
+            d = self.to_dyn(st, default[0])
+            yield st, dyn(z3.If(z3.And(Val.is_O(t), HASATTR(name)(Val.ref(t))), FLD(name)(Val.ref(t)), d))
             return
         raise Unsupported("getattr(dynamic, %r)" % name)
 
